@@ -186,7 +186,7 @@ def smod_tests(rng):
 
 def case(seed, idx, res):
     rng = random.Random(f"c11-{seed}-{idx}")
-    spec, setup, tests = testgen.gen_contract(rng, 3, kinds=KINDS, symbolic_setup=rng.random() < 0.6)
+    spec, setup, tests = testgen.gen_contract(rng, 3, kinds=KINDS, symbolic_setup=rng.random() < 0.6, force_first=sorted(set(KINDS))[idx % len(set(KINDS))])
     cache = rng.random() < 0.5
     ov = dict(cache_solver=cache, solver="yices", loop=3)
     REC["queries"].clear()
